@@ -171,6 +171,37 @@ func (m *RWMutex) RUnlock() {
 	m.rvc = join(m.rvc, t.release())
 }
 
+// TryLock mirrors sync.RWMutex.TryLock.
+func (m *RWMutex) TryLock() bool {
+	s := active
+	if s == nil {
+		return m.real.TryLock()
+	}
+	t := s.point(Op{Kind: OpYield, Name: "trylock"})
+	if m.wlocked || m.readers > 0 {
+		return false
+	}
+	m.wlocked = true
+	t.acquire(m.vc)
+	t.acquire(m.rvc)
+	return true
+}
+
+// TryRLock mirrors sync.RWMutex.TryRLock.
+func (m *RWMutex) TryRLock() bool {
+	s := active
+	if s == nil {
+		return m.real.TryRLock()
+	}
+	t := s.point(Op{Kind: OpYield, Name: "tryrlock"})
+	if m.wlocked {
+		return false
+	}
+	m.readers++
+	t.acquire(m.vc)
+	return true
+}
+
 // RLocker mirrors sync.RWMutex.RLocker.
 func (m *RWMutex) RLocker() Locker { return (*rlocker)(m) }
 
